@@ -60,6 +60,60 @@ impl Record<'_> {
         calculate_alignment_span(self.read_length, &self.features)
     }
 
+    fn has_reference_based_sequence(&self) -> bool {
+        !self.bam_flags.is_unmapped() && !self.cram_flags.sequence_is_missing()
+    }
+
+    // Returns the sequence that is built from the features and the reference sequence.
+    fn reference_based_sequence(&self) -> io::Result<Sequence<'_, '_>> {
+        let (reference_sequence, alignment_start) = match self.reference_sequence.as_ref() {
+            Some(ReferenceSequence::Embedded {
+                reference_start,
+                sequence,
+            }) => {
+                let alignment_start = self.alignment_start.ok_or_else(missing_alignment_start)?;
+
+                // The embedded reference sequence starts at the alignment start of the slice.
+                let offset_alignment_start = usize::from(alignment_start)
+                    .checked_sub(usize::from(*reference_start))
+                    .and_then(|n| Position::new(n + 1))
+                    .ok_or_else(|| {
+                        io::Error::new(
+                            io::ErrorKind::InvalidData,
+                            "invalid record: alignment start is before the embedded reference sequence",
+                        )
+                    })?;
+
+                (Some(*sequence), offset_alignment_start)
+            }
+            Some(ReferenceSequence::External { sequence, .. }) => {
+                let alignment_start = self.alignment_start.ok_or_else(missing_alignment_start)?;
+                (Some((**sequence).as_ref()), alignment_start)
+            }
+            None => (None, Position::MIN),
+        };
+
+        Ok(Sequence::new(
+            reference_sequence,
+            self.substitution_matrix.clone(),
+            &self.features,
+            alignment_start,
+            self.read_length,
+        ))
+    }
+
+    /// Validates that the sequence can be built from the features and the reference sequence.
+    ///
+    /// The sequence is built when it is iterated, which cannot return an error.
+    pub(crate) fn validate_sequence(&self) -> io::Result<()> {
+        if self.has_reference_based_sequence() {
+            self.reference_based_sequence()
+                .and_then(|sequence| sequence.validate())
+        } else {
+            Ok(())
+        }
+    }
+
     pub(crate) fn alignment_end(&self) -> Option<Position> {
         self.alignment_start.and_then(|alignment_start| {
             let end = usize::from(alignment_start) + self.alignment_span() - 1;
@@ -144,33 +198,21 @@ impl sam::alignment::Record for Record<'_> {
     }
 
     fn sequence(&self) -> Box<dyn sam::alignment::record::Sequence + '_> {
-        if self.bam_flags.is_unmapped() || self.cram_flags.sequence_is_missing() {
-            Box::new(Bases(&self.sequence[..]))
-        } else {
-            let (reference_sequence, alignment_start) = match self.reference_sequence.as_ref() {
-                Some(ReferenceSequence::Embedded {
-                    reference_start,
-                    sequence,
-                }) => {
-                    let alignment_start = usize::from(self.alignment_start.unwrap());
-                    let offset = usize::from(*reference_start);
-                    let offset_alignment_start =
-                        Position::new(alignment_start - offset + 1).unwrap();
-                    (Some(*sequence), offset_alignment_start)
-                }
-                Some(ReferenceSequence::External { sequence, .. }) => {
-                    (Some((**sequence).as_ref()), self.alignment_start.unwrap())
-                }
-                None => (None, Position::MIN),
-            };
+        if self.has_reference_based_sequence() {
+            // A record that is read from a slice is validated (see `Record::validate_sequence`).
+            let sequence = self.reference_based_sequence().unwrap_or_else(|_| {
+                Sequence::new(
+                    None,
+                    self.substitution_matrix.clone(),
+                    &self.features,
+                    Position::MIN,
+                    self.read_length,
+                )
+            });
 
-            Box::new(Sequence::new(
-                reference_sequence,
-                self.substitution_matrix.clone(),
-                &self.features,
-                alignment_start,
-                self.read_length,
-            ))
+            Box::new(sequence)
+        } else {
+            Box::new(Bases(&self.sequence[..]))
         }
     }
 
@@ -262,6 +304,13 @@ impl<'c> sam::alignment::record::Data<'c> for EmptyData<'c> {
     > {
         Box::new(iter::empty())
     }
+}
+
+fn missing_alignment_start() -> io::Error {
+    io::Error::new(
+        io::ErrorKind::InvalidData,
+        "invalid record: missing alignment start",
+    )
 }
 
 pub(crate) fn calculate_alignment_span(read_length: usize, features: &[Feature]) -> usize {
